@@ -116,6 +116,8 @@ func All() []Val {
 		{"s-A", `"A"`, s("A"), "string"},
 		{"s-0", `"0"`, s("0"), "string"},
 		{"s-12", `"12"`, s("12"), "string"},
+		{"s-010", `"010"`, s("010"), "string"},
+		{"s-0x10", `"0x10"`, s("0x10"), "string"},
 		{"s-1.5", `"1.5"`, s("1.5"), "string"},
 		{"s-true", `"true"`, s("true"), "string"},
 		{"s-utf8", `"é世"`, s("é世"), "string"},
@@ -223,7 +225,6 @@ func Extended() []Val {
 		{"s--1", `"-1"`, s("-1"), "string"},
 		{"s-+1", `"+1"`, s("+1"), "string"},
 		{"s-1e3", `"1e3"`, s("1e3"), "string"},
-		{"s-0x10", `"0x10"`, s("0x10"), "string"},
 		{"s-NaN", `"NaN"`, s("NaN"), "string"},
 		{"s-false", `"false"`, s("false"), "string"},
 		{"s-cjk", `"世界"`, s("世界"), "string"},
